@@ -1,6 +1,6 @@
 (** * C10 - Blacklisting refunds in full and excludes; un-blacklisting restores. *)
 From LP Require Import Proofs.Tactics Proofs.LedgerBase Proofs.Gates Proofs.Frames Proofs.Settle Proofs.Confirm Proofs.Filter Proofs.Examples.
-From LP Require Import Proofs.Resume Proofs.Setup Proofs.BlacklistInv.
+From LP Require Import Proofs.Resume Proofs.Setup Proofs.BlacklistInv Proofs.SetupGt Proofs.BlacklistInvGt.
 Open Scope N_scope.
 
 (** the blacklist loop processes the listed participants one by one with [bl_one] *)
@@ -81,6 +81,28 @@ Example C10_nonvacuous :
   exec_sha Base (mkenv 1 20 0 []) 5 [] base_confirmed (CBlacklist [2]) = Err FUser.
 Proof. vm_compute. repeat split. Qed.
 
+(** the same for the four contracts with guaranteed tickets (gt1, migration, locked + gt, gt2), whose
+    set-up histories also contain allocations with guarantees, refunding blacklisting, un-blacklisting
+    (which re-books reservations) and vesting-schedule setters *)
+Theorem C10_blacklisted_have_nothing_confirmed_gt : forall (H : list N -> list N) v w,
+  guar v -> setup_reach_gt H v w -> forall a, blacklisted (st w) a = true -> confirmed (st w) a = 0.
+Proof. exact setup_reach_gt_BlInv. Qed.
+
+Theorem C10_from_deployment_gt : forall (H : list N -> list N) v w0 lf wf ef bf w1,
+  guar v -> setup_reach_gt H v w0 ->
+  after_interrupted filter_tickets lf w0 = Some wf -> filter_tickets ef bf wf = Ok (w1, 0) ->
+  forall a, blacklisted (st w0) a = true ->
+    confirmed (st w1) a = 0 /\ range (st w1) a = None /\
+    (forall sf e, caller e = a -> exists k, claim_launchpad_tokens sf e w1 = Err k).
+Proof. exact deployed_blacklisted_excluded_gt. Qed.
+
+(** non-vacuity: a reachable gt2 state with a blacklisted participant (4) and a restored one (3) *)
+Example C10_gt_nonvacuous :
+  setup_reach_gt sha256 Gt2 gt2_bl_history /\
+  blacklisted (st gt2_bl_history) 4 = true /\ blacklisted (st gt2_bl_history) 3 = false /\
+  range (st gt2_bl_history) 4 <> None.
+Proof. split; [exact (proj1 gt2_bl_history_reachable)|]. vm_compute. repeat split; discriminate. Qed.
+
 Print Assumptions C10_loop.
 Print Assumptions C10_blacklist_one.
 Print Assumptions C10_gate.
@@ -91,3 +113,6 @@ Print Assumptions C10_blacklisted_have_nothing_confirmed.
 Print Assumptions C10_from_deployment.
 Print Assumptions C10_unblacklist_frame.
 Print Assumptions C10_nonvacuous.
+Print Assumptions C10_blacklisted_have_nothing_confirmed_gt.
+Print Assumptions C10_from_deployment_gt.
+Print Assumptions C10_gt_nonvacuous.
